@@ -465,6 +465,12 @@ class H2Connection:
         if stream_id <= highest_stream_id:
             raise StreamIDTooLowError(stream_id, highest_stream_id)
 
+        if stream_id > self.HIGHEST_ALLOWED_STREAM_ID:
+            raise ProtocolError(
+                "Stream ID %d is larger than the highest allowed stream ID" %
+                stream_id
+            )
+
         if (stream_id % 2) != int(allowed_ids):
             raise ProtocolError(
                 "Invalid stream ID for peer."
@@ -1278,6 +1284,11 @@ class H2Connection:
         """
         if not self.config.client_side:
             raise RFC1122Error("Servers SHOULD NOT prioritize streams.")
+
+        if not (1 <= stream_id <= self.HIGHEST_ALLOWED_STREAM_ID):
+            raise ProtocolError(
+                "Stream ID %d cannot be prioritized" % stream_id
+            )
 
         self.state_machine.process_input(
             ConnectionInputs.SEND_PRIORITY
